@@ -422,7 +422,15 @@ theorem requeue_ok (env : Env) (d : Nat) (next : Obj) (items : List Obj) (rest :
     · exact backOf_ok env rest hr q ((List.dropWhile_sublist _).subset h)
   · rcases List.mem_append.mp hq with h | h
     · rcases List.mem_map.mp h with ⟨o, ho, rfl⟩; exact hi o (List.dropLast_subset _ ho)
-    · exact backOf_ok env rest hr q h
+    · -- capHead only changes a depth
+      cases hb : backOf rest with
+      | nil => rw [hb] at h; cases h
+      | cons x xs =>
+        rw [hb] at h
+        simp only [capHead, List.mem_cons] at h
+        rcases h with rfl | h
+        · exact backOf_ok env rest hr x (by rw [hb]; simp)
+        · exact backOf_ok env rest hr q (by rw [hb]; simp [h])
 
 theorem elabStep_ok (env : Env) (s s' : St) (h : elabStep env s = .inr s') (hs : StOK env s) : StOK env s' := by
   unfold elabStep at h
